@@ -19,7 +19,7 @@ FRAMED = ["Package", "PackageBuilder", "VarPackage", "BufferData", "BufferTerm",
 
 
 def chars(s):
-    return [ord(c) for c in s]
+    return list(s.encode("utf-8"))
 
 
 class G:
